@@ -29,7 +29,7 @@ ASSUMPTIONS = [
 ]
 FLOORS = {'cyclic_cases': 100, 'acyclic_cases': 100, 'failure_cases': 100,
           'budget_armed': 200, 'evaluate_entries_seen': 1000,
-          'deep_chain_cases': 6}
+          'deep_chain_cases': 6, 'derived_models': 50}
 ANCHOR_FUNCS = {
     'xlcalculator/evaluator.py': ['Evaluator.evaluate',
                                   'EvaluatorContext.eval_cell'],
@@ -102,16 +102,24 @@ class Case:
     def __init__(self, ctx, rec):
         self.ctx, self.rec = ctx, rec
 
-    def build(self, cells, names, path):
+    def build(self, cells, names, path, derive=True):
         wb = ref.Workbook(cells, names)
+        out = os.path.join(bootstrap.VERIF, 'out', 'c06')
         if path == 'xlsx' or names:
-            out = os.path.join(bootstrap.VERIF, 'out', 'c06')
             os.makedirs(out, exist_ok=True)
             model = build.model_from_xlsx(
                 wb, os.path.join(out, f's{self.ctx.shard}.xlsx'))
         else:
             first = sorted({k[0] for k in cells})[0]
             model = build.model_from_dict(wb, default_sheet=first)
+        # the graph is the same in every Model the API derives from it
+        self.provenance = 'compiled'
+        if derive and self.ctx.rng.random() < 0.3:
+            self.provenance = self.ctx.rng.choice(
+                ['extracted', 'json', 'deepcopy'])
+            model = build.derive(model, self.provenance, os.path.join(
+                out, f's{self.ctx.shard}.json'))
+            self.ctx.event('derived_models')
         return wb, model
 
     def evaluate(self, model, key, n_cells, depth=None, ev=None):
@@ -180,7 +188,8 @@ def run(ctx):
         if msg_len > 400 * (ncells + 2) ** 2:
             bad.append(f'message of {msg_len} characters')
         if bad:
-            ctx.fail(f'cyclic graph {desc} from {build.addr(start)}: '
+            ctx.fail(f'cyclic graph {desc} ({C.provenance} model) from '
+                     f'{build.addr(start)}: '
                      + '; '.join(bad) + f' (entries={entries} of budget '
                      f'{budget}, nesting={nesting})',
                      {'graph': desc, 'cells': build.dict_of(wb),
@@ -197,7 +206,8 @@ def run(ctx):
         ctx.event('acyclic_cases')
         ctx.case(key + (cls,))
         if got != want:
-            ctx.fail(f'acyclic graph {desc} from {build.addr(start)}: '
+            ctx.fail(f'acyclic graph {desc} ({C.provenance} model) from '
+                     f'{build.addr(start)}: '
                      f'outcome {cls} {str(got)[:200]}, reference {want} '
                      f'(entries={entries}, budget={budget})',
                      {'graph': desc, 'cells': build.dict_of(wb),
@@ -331,7 +341,7 @@ def run(ctx):
                 cells[(S, 1, k)] = ('f', f)
             desc = f'chain of depth {depth} linked by {style}'
             try:
-                wb, model = C.build(cells, {}, 'dict')
+                wb, model = C.build(cells, {}, 'dict', derive=False)
             except RecursionError:
                 ctx.event('deep_chain_not_buildable')
                 continue
